@@ -33,7 +33,7 @@ func (c11) Meta() fw.Meta {
 			"the oracle uses the per-item clock printed by the commands",
 			"behaviour of sum-diff for a missing destination is not specified by the property (only C16 applies)",
 		},
-		Obligations: []string{"sumcopy_runs", "dest_created", "dest_slots_compared", "sumdiff_clean_after_copy", "sumdiff_detects_perturbation", "sumdiff_records_checked", "perturbed_item_not_last", "coarser_agree_finer_differ", "single_archive_selection", "past_window", "window_beyond_finest_retention", "slow_first_item_runs", "one_ulp_perturbations"},
+		Obligations: []string{"sumcopy_runs", "dest_created", "dest_slots_compared", "sumdiff_clean_after_copy", "sumdiff_detects_perturbation", "sumdiff_records_checked", "perturbed_item_not_last", "coarser_agree_finer_differ", "single_archive_selection", "past_window", "window_beyond_finest_retention", "slow_first_item_runs", "one_ulp_perturbations", "sumdiff_listing_to_file", "sumdiff_with_an_item_without_sources"},
 		Workers:     12,
 	}
 }
@@ -317,8 +317,18 @@ func (c11) Run(c *fw.Ctx) {
 		db.Close()
 	}
 	args := win([]string{"sum-diff", "-src-base", srcBase, "-item", "grp*", "-src", "*.wsp", "-dest-base", destBase, "-dest", "sum.wsp", "-archive", strconv.Itoa(sel)})
+	listFile := ""
+	if c.Index%2 == 1 {
+		// the listing goes to a file: it must be complete there, also when differences are found
+		listFile = filepath.Join(c.TmpDir(), "sumdiff.out")
+		args = append(args, "-text-out", listFile)
+		c.Count("sumdiff_listing_to_file", 1)
+	}
 	res := runCLI(c, args...)
-	det := fw.J{"scenario": sc, "run": res.brief(), "perturbed_item": victim}
+	if listFile != "" {
+		res.Stdout = string(readFileOrNil(listFile))
+	}
+	det := fw.J{"scenario": sc, "run": res.brief(), "perturbed_item": victim, "listing_file": listFile}
 	if cliPanicked(res) {
 		c.Violationf("panic", det, "sum-diff panicked")
 		return
@@ -379,6 +389,66 @@ func (c11) Run(c *fw.Ctx) {
 	}
 	if anyDiff {
 		c.Count("sumdiff_detects_perturbation", 1)
+	}
+	// ---- an EARLIER item loses all its source files (its directory stays): whatever sum-diff says about that item, the
+	// deviating slots of the perturbed item, which comes later, are still listed and the verdict is not "clean"
+	if anyDiff && victim != grp[0] && c.Index%2 == 0 {
+		gone := grp[0]
+		for _, n := range tree.Items[gone] {
+			os.Remove(filepath.Join(srcBase, gone, n))
+		}
+		args := win([]string{"sum-diff", "-src-base", srcBase, "-item", "grp*", "-src", "*.wsp", "-dest-base", destBase, "-dest", "sum.wsp", "-archive", strconv.Itoa(sel)})
+		res := runCLI(c, args...)
+		det := fw.J{"scenario": sc, "run": res.brief(), "perturbed_item": victim, "item_without_sources": gone}
+		c.Count("sumdiff_with_an_item_without_sources", 1)
+		if cliPanicked(res) {
+			c.Violationf("panic", det, "sum-diff panicked")
+			return
+		}
+		if res.Exit == 0 {
+			c.Violationf("sumdiff-verdict", det, "sum-diff exited 0 although the destination of %s deviates from its sum (and %s has no sources)", victim, gone)
+			return
+		}
+		out := parseOutput(res.Stdout)
+		found := false
+		for ii, nl := range out.Nows {
+			if nl.Name != dotted(victim) {
+				continue
+			}
+			found = true
+			u := until
+			if window == "default" {
+				u = nl.Now
+			}
+			wantSum, _ := expectedSum(tree, victim, sel, from, u, nl.Now, c)
+			gotDest, _, err := fetchArchives(destPath(victim), sel, from, u, nl.Now)
+			if err != nil {
+				panic(err)
+			}
+			var want []expDiff
+			for ai := range wantSum {
+				if wantSum[ai] == nil || gotDest[ai] == nil {
+					continue
+				}
+				for j, sv := range wantSum[ai].Values() {
+					dv := float64(gotDest[ai].Values()[j])
+					if !valEq(float64(sv), dv) {
+						want = append(want, expDiff{ai, int64(wantSum[ai].FromTime()) + int64(j)*int64(wantSum[ai].Step()), float64(sv), dv})
+					}
+				}
+			}
+			end := len(out.Diffs)
+			if ii+1 < len(out.Nows) {
+				end = out.Nows[ii+1].DiffsFrom
+			}
+			if !checkDiffRecords(c, out.Diffs[nl.DiffsFrom:end], want, det) {
+				return
+			}
+		}
+		if !found {
+			c.Violationf("sumdiff-items", det, "sum-diff did not reach %s (whose destination deviates) after %s, which has no source files", victim, gone)
+			return
+		}
 	}
 	if wrote > 0 && kept > 0 || (anyDiff && victim != grp[len(grp)-1]) {
 		c.Nontrivial(fw.JSON(sc), victim)
